@@ -32,6 +32,9 @@ def gen_recipe(rng):
     return {'nsheets': nsheets, 'cells': cells, 'safety': rng.random() < 0.75, 'chart_at': rng.choice([None, None, None, 0, 1]), 'array': rng.random() < 0.2, 'entry': rng.random() < 0.25}
 
 
+WRITE_FAIL = []
+
+
 def make_case(rc, k=[0]):
     from openpyxl import Workbook
     from openpyxl.utils import get_column_letter
@@ -66,6 +69,15 @@ def make_case(rc, k=[0]):
         pr.get_translation()
         impl = 'INoRaise'
     except I.X.E2PyclSafetyException as e:
+        try:
+            pr.write_translation(path + '.py')
+            wrote = 'no exception'
+        except I.X.E2PyclSafetyException as e2:
+            wrote = None if dict(e2.suspicious_cells) == dict(e.suspicious_cells) and str(e2) == str(e) else 'report %r / message %r' % (dict(e2.suspicious_cells), str(e2)[:80])
+        except Exception as e2:  # noqa
+            wrote = type(e2).__name__
+        if wrote is not None:
+            WRITE_FAIL.append((rc, 'get_translation reports %r, write_translation on the same parser gives: %s' % (dict(e.suspicious_cells), wrote)))
         impl = '(IRaised %s)' % C.clist(['(%s, %s)' % (C.cstr(kk), C.clist([C.cstr(x) for x in v])) for kk, v in e.suspicious_cells.items()])
     except I.X.E2PyclParserException:
         impl = 'INoRaise'      # the gate let it through; the formula itself is not translatable (other properties)
@@ -104,6 +116,8 @@ def run(R, tier):
     for c in cases[:2] + cases[-2:]:
         R.sample({'cells': c['recipe']['cells'], 'safety': c['recipe']['safety']})
     gate_histories(R)
+    for rc_, w_ in WRITE_FAIL[:3]:
+        R.violation(w_, {'recipe': rc_, 'input_found': True})
     C.correspond(R, HEADER, 'report', cases, 'c19', 'Excel._get_suspicious_constructions, the report key in Excel.parse, is_safe and the gate in Parser._translate')
     R.assumptions += ['printable ASCII texts; regexes through Base/Regex.v; openpyxl delivers the cell texts (reader covered by C18)']
 
